@@ -290,7 +290,11 @@ pub(crate) fn compute_split_positions(
                 && (sum + weights[permutation[idx]] < threshold
                 // multiplication between modifiers and weights can cause nasty
                 // rounding precision loss which would put an element in a wrong part
-                || Ulps::default().eq(&threshold, &(sum + weights[permutation[idx]])))
+                // (compared in ULPs only: the default absolute epsilon would make
+                // every sum of tiny weights "equal" to the threshold)
+                || Ulps::default()
+                    .epsilon(0.0)
+                    .eq(&threshold, &(sum + weights[permutation[idx]])))
             {
                 sum += weights[permutation[idx]];
                 idx += 1;
